@@ -196,7 +196,7 @@ Proof.
   destruct (pt_book ops orc cf e tk tid pid st) as [tk'|tk'|tk'] eqn:Hb.
   - rewrite (Hbad tk' law0 eq_refl). exact Hok.
   - revert Hb. unfold pt_book.
-    destruct (pt_stage1 ops orc e tk tid pid st) as [r|[[start|] tk1]] eqn:H1.
+    destruct (pt_stage1 ops orc cf e tk tid pid st) as [r|[[start|] tk1]] eqn:H1.
     + revert H1. unfold pt_stage1.
       repeat match goal with |- context [if ?c then _ else _] => destruct c
                         | |- context [match ?x with _ => _ end] => destruct x end;
@@ -204,7 +204,7 @@ Proof.
     + intros Hf. pose proof (pt_finish_times e start tk1 pid) as Ht. rewrite Hf in Ht. intros _. exact Ht.
     + discriminate.
   - revert Hb. unfold pt_book.
-    destruct (pt_stage1 ops orc e tk tid pid st) as [r|[[start|] tk1]] eqn:H1.
+    destruct (pt_stage1 ops orc cf e tk tid pid st) as [r|[[start|] tk1]] eqn:H1.
     + revert H1. unfold pt_stage1.
       repeat match goal with |- context [if ?c then _ else _] => destruct c
                         | |- context [match ?x with _ => _ end] => destruct x end;
